@@ -161,6 +161,11 @@ def sites():
         'free/x/huge_radius': ('free', ['-w', '4,0,0,17,10,0,17,5']),
         'free/x/both_tags_equal': ('free', ['-w', '1,4,0,0,17,10,0,17,0.001', '-w', '1,4,0,0,27,10,0,27,0.001']),
         'free/x/negative_sweep': ('free', ['--frequency-steps=3', '--frequency-increment=-4']),
+        # a sweep whose LAST step has no input power (negative-resistance load): nothing may be printed before the diagnostic
+        'free/x/late_step_without_power': ('free', ['-f', '14.3', '--load=-30', '--attach-load=1,5', '--frequency-steps=3',
+                                                    '--frequency-increment=-3.5']),
+        'free/x/zero_voltage': ('free', ['--excitation-voltage=0']),
+        'free/x/tiny_voltage': ('free', ['--excitation-voltage=1e-25']),
         'free/x/negative_resistance_load': ('free', ['--load=-5000', '--attach-load=1,all']),
         'free/x/negative_resistance_one_pulse': ('free', ['--load=-50', '--attach-load=1,5']),
         'curves/x/equal_transform_keys': ('curves', ['--geo-rotate=2,0,0,10', '--geo-translate=2,1,0,0']),
